@@ -10,6 +10,7 @@ import (
 	clock "lunar/toolkit-core/clock"
 	context_manager "lunar/toolkit-core/context-manager"
 	"lunar/toolkit-core/otel"
+	"lunar/toolkit-core/verifhook"
 	"time"
 
 	lunar_metrics "lunar/engine/metrics"
@@ -232,6 +233,7 @@ func (p *queueProcessor) processQueueItem(request *Request) bool {
 			Err(err).
 			Str("requestID", request.GetID()).
 			Msgf("Request blocked, re-enqueueing")
+		verifhook.Yield("queue.before-repush")
 		_ = p.queue.Enqueue(request.GetID(), request.GetPriority())
 		return false
 	}
@@ -393,6 +395,7 @@ func (p *queueProcessor) enqueueIfSlotAvailable(req *Request) bool {
 		return false
 	}
 
+	verifhook.Yield("queue.after-slot-check")
 	p.requestsWatcher.AddRequest(req)
 
 	p.logger.Trace().Str("requestID", req.GetID()).Msg("Slot available, enqueuing")
@@ -517,6 +520,7 @@ func (p *queueProcessor) validateProcessingTimeoutIsGreaterTheTTL() error {
 }
 
 func (p *queueProcessor) removeRequest(reqID string) {
+	verifhook.Yield("queue.before-remove")
 	p.requestsWatcher.RemoveFromWatchList(reqID)
 	p.queue.Remove(reqID)
 }
